@@ -47,6 +47,10 @@ pub struct DotPlan {
     /// history and the target are built in the copy (the original stays alive)
     #[serde(default)]
     pub clone_at: Option<usize>,
+    /// `address-alias`: while the target is built, after `skip` node allocations the next `want`
+    /// nodes are placed at addresses that agree in their low 32 bits (a heap wider than 4 GiB)
+    #[serde(default)]
+    pub alias: Option<(u32, u32)>,
 }
 
 const WEIRD_NAMES: [&str; 10] = [
@@ -108,7 +112,21 @@ pub fn gen_plan(rng: &mut Prng) -> DotPlan {
         write_plan: gen_io_plan(rng, 400, true, true),
         formula,
         clone_at: if rng.chance(1, 5) { Some(rng.range(0, history.len())) } else { None },
+        alias: if rng.chance(1, 6) { Some((rng.below(4) as u32, rng.range(2, 3) as u32)) } else { None },
     }
+}
+
+/// true when two distinct nodes of the diagram have addresses that agree in their low 32 bits
+pub fn has_aliased_nodes<S: BDDSymbol>(d: &Rc<BDD<S>>) -> bool {
+    let mut full = std::collections::HashSet::new();
+    let mut low = std::collections::HashSet::new();
+    for n in d.node_list() {
+        let p = Rc::as_ptr(&n) as usize;
+        if full.insert(p) && !low.insert(p as u32) {
+            return true;
+        }
+    }
+    false
 }
 
 fn viol(oracle: &str, site: &str, detail: String) -> Violation {
@@ -226,7 +244,14 @@ fn judge_diagram<S: BDDSymbol>(plan: &DotPlan, w: &World<S>, stats: &mut Stats, 
         clone_env(&mut env, stats);
     }
     let target = func_tt(plan.target, n);
+    if let Some((skip, want)) = plan.alias {
+        crate::alloc::request_alias(crate::alloc::rc_block_size::<BDD<S>>(), skip, want);
+    }
     let d = build(&env, &target, &*w.sym, plan.route);
+    crate::alloc::cancel_alias();
+    if has_aliased_nodes(&d) {
+        bump(stats, "fault.address-alias");
+    }
     if walk_tt(&d, n, &*w.idx).as_ref() != Ok(&target) {
         // not this property's business (C03/C13); do not judge the export of a wrong diagram
         return;
